@@ -5,3 +5,30 @@ package sleep
 // Registry hooks used only by the verif build; no-ops here.
 func verifRegister(*Sleeper)   {}
 func verifUnregister(*Sleeper) {}
+
+// Schedule points: one before every atomic operation of the algorithm (outside
+// commitSleep, which runs on the system stack where nothing may block).
+const (
+	verifAddLoad = iota
+	verifAddCAS
+	verifNextLoad
+	verifNextPrepare
+	verifNextRecheck
+	verifNextAbort
+	verifNextPark
+	verifNextSwap
+	verifFetchSwap
+	verifDoneLoad
+	verifDoneCAS
+	verifEnqLoad
+	verifEnqCAS
+	verifWakeLoad
+	verifWakeCAS
+	verifAssertLoad
+	verifAssertSwap
+	verifClearLoad
+	verifClearCAS
+)
+
+// verifPoint is a no-op outside verification builds.
+func verifPoint(int) bool { return true }
